@@ -76,8 +76,20 @@ func logDigest(c any, result any) {
 	}
 }
 
+// sparseTwin: the second process of the cross-process comparison executes only every other case (by case hash). Both
+// processes then have DIFFERENT call histories, so state that leaks from one Layout call into later calls with other
+// inputs (a process-wide cell behind a pointer in the default options - seeded/r3-m15) shows up as a digest mismatch,
+// which two processes replaying the identical sequence could never see.
+func sparseTwinSkips(c *Case) bool {
+	return os.Getenv("VERIF_C07_SPARSE") == "1" && hash64(mustRaw(c))%2 == 0
+}
+
 func checkC07(c *Case) *Outcome {
 	o := &Outcome{}
+	if sparseTwinSkips(c) {
+		o.class("skipped_by_sparse_twin")
+		return o
+	}
 	_, _, _, ncomp := structuralClasses(c, o)
 	optionClasses(c, o)
 	src := c.EdgeSlice()
